@@ -1,4 +1,5 @@
 import Typegen.RunTheorems
+import Typegen.BuildPath
 import Typegen.Theorems.C08
 /-! # C17 — a failed run is never remembered as up to date
 
@@ -75,5 +76,29 @@ theorem C17_recovery_concrete (src : Pj.Project) (cfg : Gn.Config) (h : List (St
     concreteSys.empty w.src = false → (run concreteSys w.src w.cfg false none w.out).1 = .ok →
     Current (run concreteSys w.src w.cfg false none w.out).2.2 (concreteSys.gen w.src w.cfg) :=
   C17_recovery concreteSys concrete_keySound concrete_namesDistinct _ (inv_empty concreteSys) h
+
+/-! ## the build-script path -/
+
+/-- a build-script run whose clean-up fails after the files were written (a stale generated-looking file that cannot be
+    removed) reports failure and leaves no record behind: whatever the sources, the next non-forced run is no cache hit -/
+theorem C17_build_cleanup_failure_not_remembered {Src Cfg Key Content : Type} [DecidableEq Key]
+    (S : Sys Src Cfg Key Content) (isGen : Name → Bool) (present : List Name) (src : Src) (cfg : Cfg)
+    (forced : Bool) (fault : Option Nat) (o : Out Key Content)
+    (hok : (runBuild S isGen present src cfg forced fault o).1 = .ok)
+    (hcmd : (runBuild S isGen present src cfg forced fault o).2.1 ≠ .noCommands) :
+    (runBuildF S isGen present true src cfg forced fault o).1 = .err ∧
+    (runBuildF S isGen present true src cfg forced fault o).2.2.cache = none ∧
+    ∀ src' cfg', upToDate S src' cfg' false (runBuildF S isGen present true src cfg forced fault o).2.2 = false :=
+  runBuildF_cleanup_failure S isGen present src cfg forced fault o hok hcmd
+
+/-- a fault inside the run proper is reported by the build-script path exactly as by the CLI path (no clean-up follows) -/
+theorem C17_build_fault_as_cli {Src Cfg Key Content : Type} [DecidableEq Key]
+    (S : Sys Src Cfg Key Content) (isGen : Name → Bool) (present : List Name) (cf : Bool) (src : Src) (cfg : Cfg)
+    (forced : Bool) (fault : Option Nat) (o : Out Key Content) (h : (run S src cfg forced fault o).1 = .err) :
+    runBuildF S isGen present cf src cfg forced fault o = run S src cfg forced fault o := by
+  have hb : runBuild S isGen present src cfg forced fault o = run S src cfg forced fault o := by
+    unfold runBuild; simp [h]
+  unfold runBuildF
+  simp [hb, h]
 
 end TG.C17
